@@ -666,7 +666,9 @@ func (c *Ctx) runChild(self, workDir, family string, lo, hi int, o IsoOpts) {
 		fmt.Sprintf("VERIF_SEED=%d", c.Seed), "VERIF_TIER="+c.Tier)
 	if gr := os.Getenv("GORACE"); gr != "" {
 		// per-child race log
-		cmd.Env = append(cmd.Env, "GORACE=halt_on_error=0 exitcode=0 log_path="+base+".race")
+		// (atexit_sleep_ms: the detector otherwise sleeps a full second at every exit; a child exits after its cases
+		// have joined all their goroutines, so nothing is left to report by then)
+		cmd.Env = append(cmd.Env, "GORACE=halt_on_error=0 exitcode=0 atexit_sleep_ms=20 log_path="+base+".race")
 	}
 	if o.Env != nil {
 		cmd.Env = append(cmd.Env, o.Env(lo)...)
